@@ -44,4 +44,20 @@ def obligations(tier):
                           % (tname, nd, 'absent' if lost == '0' else 'lost with the cut (offset %s)' % lost, '0' if dang == '0' else 'pointing at a chunk lost with the cut (offset %s)' % dang),
                      bound='%d DATA chunks, no surviving INDEX/SUMMARY level; dangling offsets concrete per instance, payload bytes symbolic' % nd,
                      assumes=['raw layer replaced by the chunk-store model rawstore.h (a seek beyond the end succeeds, the read there fails, as in raw.c)']))
+    icases = [('CUT', '(CUT+256)', 'CUT'), ('0', '0', 'CUT')] if tier == 'quick' else [('CUT', '(CUT+256)', 'CUT'), ('0', '0', 'CUT'), ('CUT', '(CUT+256)', '0'), ('0', '0', '0'), ('(CUT+512)', '(CUT+768)', '(CUT+256)')]
+    for tname, tdef in (('annotation', 'JLS_TRACK_TYPE_ANNOTATION'), ('utc', 'JLS_TRACK_TYPE_UTC')) if tier != 'quick' else (('annotation', 'JLS_TRACK_TYPE_ANNOTATION'),):
+        for ixn, smn, dang in icases:
+            nm = 'O3_repair_pointers_%s_level1_idxnext%s_datanext%s' % (tname, 'end' if ixn == '0' else 'lost', 'end' if dang == '0' else 'lost')
+            if any(x.name == nm for x in o):
+                nm += '_b'
+            o.append(Obl(nm, 'c19_repair.c', units=['track.c', 'core.c', 'buffer.c'],
+                         defines=['JLS_VERIF_SIGNAL_COUNT=2', 'JLS_VERIF_SOURCE_COUNT=2', 'JLS_VERIF_FSR_BUFFER_U64=2', 'JLS_VERIF_BUF_DEFAULT_SIZE=256', 'JLS_VERIF_BUF_STRING_SIZE=16',
+                                  'ST_N=8', 'ST_PMAX=144', 'WITH_INDEX=1', 'TRACK=%s' % tdef, 'IDX_NEXT=%s' % ixn, 'SUM_NEXT=%s' % smn, 'DANGLING=%s' % dang],
+                         unwind=20, typed_calloc=True, timeout=600, backend=PORTFOLIO, objbits=10, flags=['--max-field-sensitivity-array-size', '2048'],
+                         unwind_text=[('jls_core_rd_chunk', r'while \(1\)', 3), ('jls_buf_realloc', r'while \(alloc_size < size\)', 3), ('harness', r'b < 32', 34), ('harness', r'b < 48', 50)],
+                         desc='real jls_track_repair_pointers on a cut %s track with one surviving level-1 INDEX/SUMMARY pair (3 DATA chunks; next INDEX/SUMMARY %s; last DATA item_next %s): '
+                              'heads in the file equal the in-memory ones, surviving levels keep their heads, every link is untouched or a dangling one cleared, headers and payloads of survivors untouched'
+                              % (tname, 'absent' if ixn == '0' else 'lost with the cut', '0' if dang == '0' else 'lost with the cut'),
+                         bound='HEAD + 3 DATA + 1 INDEX/SUMMARY pair; dangling offsets concrete per instance, payload bytes and timestamps symbolic',
+                         assumes=['raw layer replaced by the chunk-store model rawstore.h (a seek beyond the end succeeds, the read there fails, as in raw.c)']))
     return o
